@@ -19,7 +19,10 @@ def classify(m):
         return "C02"
     if "Merge" in what or "after merge" in what:
         return "C09"
-    blob = what + json.dumps(m.get("want", "")) + json.dumps(m.get("got", ""))
+    # a limit the specification says must refuse (or a state mismatch after such a refusal) is C18's;
+    # a request the real code refuses with "limit" although the specification accepts it is a wrong
+    # reaction to that request and stays with C12 (C18 reports it as drift)
+    blob = what + json.dumps(m.get("want", ""))
     if "specified result: limit" in blob or "specified result: toobig" in blob or '"limit"' in blob or '"toobig"' in blob:
         return "C18"
     if cls in ("error", "harness"):
